@@ -417,10 +417,13 @@ type bfsScenario struct {
 	PhaseDeletes int `json:"phaseDeletes"`
 	// Restarts: budget of operator crashes before request i of an ObjectSet / ObjectSetPhase pass
 	Restarts int `json:"restarts"`
+	// Stale: budget of ObjectSet passes whose (cached) client does not show one of the phase
+	// objects yet; the uncached client does
+	Stale int `json:"stale"`
 }
 
 func (sc bfsScenario) name() string {
-	return fmt.Sprintf("delegated phases=%d mask=%03b statuses=%d pauses=%d delete=%v holds=%v conflicts=%d phaseDeletes=%d restarts=%d", sc.N, sc.Mask, len(sc.Classes), sc.Pauses, sc.Delete, sc.Holds, sc.Conflicts, sc.PhaseDeletes, sc.Restarts)
+	return fmt.Sprintf("delegated phases=%d mask=%03b statuses=%d pauses=%d delete=%v holds=%v conflicts=%d phaseDeletes=%d restarts=%d stale=%d", sc.N, sc.Mask, len(sc.Classes), sc.Pauses, sc.Delete, sc.Holds, sc.Conflicts, sc.PhaseDeletes, sc.Restarts, sc.Stale)
 }
 
 func bfsSystem(sc bfsScenario) *world.System {
@@ -435,6 +438,7 @@ func bfsSystem(sc bfsScenario) *world.System {
 			w.Budget["hold"] = 1
 			w.Budget["conflict"] = sc.Conflicts
 			w.Budget["restart"] = sc.Restarts
+			w.Budget["stale"] = sc.Stale
 			w.Budget["phase-delete"] = sc.PhaseDeletes
 			return w
 		},
@@ -445,6 +449,17 @@ func bfsSystem(sc bfsScenario) *world.System {
 			evs = append(evs, osw.GCEvent(w)...)
 			evs = append(evs, osw.ConflictEventsAll(w)...)
 			evs = append(evs, osw.CrashEvents(w)...)
+			if w.Budget["stale"] > 0 && w.S.Objs[osw.OSKey("r1")] != nil {
+				for _, k := range w.S.SortedKeys() {
+					if k.Kind == "ObjectSetPhase" {
+						k := k
+						evs = append(evs, world.Event{Name: "reconcile-stale:os:r1 (cache misses phase object " + k.Name + ")", Apply: func(w *world.World) *world.Pass {
+							w.Budget["stale"]--
+							return w.Reconcile(world.CtrlObjectSet, osw.NN("r1"), &world.Plan{HideInList: []kmodel.Key{k}})
+						}})
+					}
+				}
+			}
 			if w.Budget["phase-delete"] > 0 {
 				for _, k := range w.S.SortedKeys() {
 					if k.Kind == "ObjectSetPhase" && !kmodel.Terminating(w.S.Objs[k].Content) {
@@ -495,6 +510,7 @@ func bfsScenarios(quick bool) []bfsScenario {
 		{N: 2, Mask: 0b10, Classes: []string{"ready"}, Delete: true, Conflicts: 1, PhaseDeletes: 1},
 		{N: 2, Mask: 0b10, Classes: []string{"ready"}, Delete: true, Restarts: 1},
 		{N: 2, Mask: 0b01, Classes: []string{"ready"}, Delete: true, Restarts: 1},
+		{N: 2, Mask: 0b10, Classes: []string{"ready"}, Delete: true, Stale: 1},
 	}
 	if !quick {
 		out = append(out,
@@ -508,7 +524,7 @@ func bfsScenarios(quick bool) []bfsScenario {
 
 func runBFS(o checks.Opts) *report.Report {
 	rep := report.New("C15", "bfs")
-	rep.Rule = "explicit-state BFS over delegated layouts: reconcile(ObjectSet, each ObjectSetPhase) in any order, workload status changes, user pause/unpause and delete (with foreign finalizers on some objects), finalizer release, garbage collector, a foreign write landing before write i of a pass, a third party deleting a phase object, an operator crash before request i of a pass; on every ObjectSet pass the structural monitor (exactly the expected ObjectSetPhase objects, carrying the phase's objects, probes, revision, previous list, paused state and class) and the gating (C03), teardown-order (C04) and status-claim (C06) monitors"
+	rep.Rule = "explicit-state BFS over delegated layouts: reconcile(ObjectSet, each ObjectSetPhase) in any order, workload status changes, user pause/unpause and delete (with foreign finalizers on some objects), finalizer release, garbage collector, a foreign write landing before write i of a pass, a third party deleting a phase object, an operator crash before request i of a pass, an ObjectSet pass whose cached client does not show one of the phase objects yet; on every ObjectSet pass the structural monitor (exactly the expected ObjectSetPhase objects, carrying the phase's objects, probes, revision, previous list, paused state and class) and the gating (C03), teardown-order (C04) and status-claim (C06) monitors"
 	scs := bfsScenarios(o.Quick())
 	rep.Bounds["systems"] = len(scs)
 	for i, sc := range scs {
